@@ -38,7 +38,7 @@ ALLOWED = {
 ENGINE_T = re.compile(r'std::(mersenne_twister_engine|linear_congruential_engine|subtract_with_carry_engine|'
                       r'discard_block_engine|independent_bits_engine|shuffle_order_engine|random_device|'
                       r'default_random_engine)')
-ENGINES_OK = {'yaclib::detail::eng', 'yaclib::detail::thread::RandomDevice::_eng'}
+ENGINES_OK = {'yaclib::detail::eng', 'yaclib::detail::thread::RandomDevice::_eng'}  # today's names (documentation only)
 
 # decision code for D4 (files); user-facing pointer comparisons of ThreadLocalPtrProxy and the stack allocator
 # (addresses of stack memory never reach a decision) are outside
@@ -138,25 +138,39 @@ def run(ctx):
         for l in f.locals:
             if ENGINE_T.search(l['t']) and not l['p']:
                 engines['%s::(local)%s' % (f.qn, l['n'])] = dict(file=f.file, line=f.line, t=l['t'])
+    # exactly one engine lives in src/fault/util.cpp (whatever it is called and wherever it is wrapped) and one in
+    # the thread-backend RandomDevice; anything else is a second source of decisions
+    def home(name):
+        v = engines[name]
+        rp = os.path.relpath(v['file'], root) if v['file'].startswith(root) else facts.rel(v['file'])
+        if rp == 'src/fault/util.cpp':
+            return 'main'
+        if name.startswith('yaclib::detail::thread::RandomDevice::'):
+            return 'device'
+        return None
+    main_engines = [n for n in sorted(engines) if home(n) == 'main']
     for name in sorted(engines):
-        ctx.instance(d2, 'D2 engine ' + name, dict(engine=name, type=engines[name]['t'][:60]))
-        if name not in ENGINES_OK:
+        ctx.instance(d2, 'D2 engine ' + name, dict(engine=name, type=engines[name]['t'][:60], role=home(name)))
+        if home(name) is None or (home(name) == 'main' and name != main_engines[0]):
             ctx.report(d2, 'D2 engine ' + name, '%s:%s' % (facts.rel(engines[name]['file']), engines[name]['line']),
                        'a second random engine / entropy source exists in the fault layer: decisions drawn from it are '
                        'not governed by (seed, draw count)')
-    if not ENGINES_OK <= set(engines):
-        ctx.broken('expected engines %s not found (found %s)' % (sorted(ENGINES_OK), sorted(engines)))
-    # who references eng
-    refs = set()
+    if not main_engines:
+        ctx.broken('the seeded engine of src/fault/util.cpp was not found (found %s)' % sorted(engines))
+    # who draws from / seeds an engine
+    drawers, seeders = set(), set()
     for f, r in fault_fns:
         for n in f.own_nodes():
-            if n['k'] == 'DeclRefExpr' and n['dn'] == 'yaclib::detail::eng':
-                refs.add(f.qn)
-    ctx.instance(d2, 'D2 users of eng', dict(users=sorted(refs)))
-    extra = refs - {'yaclib::detail::SetSeed', 'yaclib::detail::GetRandNumber'}
+            if n['k'] == 'CXXOperatorCallExpr' and n.get('op') == '()' and ENGINE_T.search(n.get('cr', '')):
+                drawers.add(f.qn)
+            if n['k'] == 'CXXMemberCallExpr' and n['cn'].endswith('::seed') and ENGINE_T.search(n.get('cr', '')):
+                seeders.add(f.qn)
+    ctx.instance(d2, 'D2 users of eng', dict(draw=sorted(drawers), seed=sorted(seeders)))
+    extra = {x for x in drawers if x not in ('yaclib::detail::GetRandNumber',) and
+             not x.startswith('yaclib::detail::thread::RandomDevice::')}
     if extra:
-        ctx.report(d2, 'D2 users of eng', 'src/fault/util.cpp', 'the engine is used by %s, bypassing the draw counter' %
-                   sorted(extra))
+        ctx.report(d2, 'D2 users of eng', 'src/fault/util.cpp', 'the engine is drawn from by %s, bypassing the draw '
+                   'counter' % sorted(extra))
     # seeding expressions
     seed_ok = ('yaclib::detail::sSeed', 'yaclib::detail::GetSeed')
 
@@ -181,7 +195,7 @@ def run(ctx):
                     ctx.report(d2, key, f.loc(n), 'an engine is re-seeded from something other than the configured seed')
         if 'ctor' in f.flags:
             for it in f.raw.get('inits', []):
-                if f.S[it['what']].endswith('::_eng'):
+                if facts.canon_field(f.S[it['what']]).endswith('::_eng'):
                     key = 'D2 seed in ' + f.qn
                     ctx.instance(d2, key, None)
                     if not seed_expr_ok(f, it['e'], False):
@@ -209,13 +223,36 @@ def run(ctx):
                        'replay to this point')
     key = 'D2 SetSeed restarts engine and draw counter'
     ctx.instance(d2, key, None)
-    seeds = [n for n in s.own_nodes() if n['k'] == 'CXXMemberCallExpr' and n['cn'].endswith('::seed')]
-    resets = [n for n in s.own_nodes() if n['k'] == 'BinaryOperator' and n['op'] == '=' and
-              (s.sn(n['ch'][0]) or {}).get('dn') == 'yaclib::detail::sRandCount' and s.sn(n['ch'][1]).get('v') == 0]
-    stores = [n for n in s.own_nodes() if n['k'] == 'BinaryOperator' and n['op'] == '=' and
-              (s.sn(n['ch'][0]) or {}).get('dn') == 'yaclib::detail::sSeed']
-    if not seeds or not stores:
-        ctx.report(d2, key, s.where, 'SetSeed does not both remember the seed and re-seed the engine')
+
+    def writes_var(fn, n, var):
+        """n assigns / stores to the namespace-scope variable `var` (plain, atomic operator= or .store)"""
+        if n['k'] in ('BinaryOperator', 'CXXOperatorCallExpr') and n.get('op') == '=':
+            tgt = fn.sn((n.get('args') or n.get('ch'))[0])
+            return tgt is not None and tgt.get('dn') == var
+        if n['k'] == 'CXXMemberCallExpr' and n.get('cn', '').endswith('::store') and n.get('obj') is not None:
+            o = fn.sn(n['obj'])
+            while o is not None and o['k'] in ('ImplicitCastExpr', 'UnaryOperator') and o.get('ch'):
+                o = fn.sn(o['ch'][0])
+            return o is not None and o.get('dn') == var
+        return False
+
+    def is_seed_call(b, i, e):
+        if not isinstance(e, int):
+            return False
+        n = s.nodes[e]
+        return n['k'] == 'CXXMemberCallExpr' and n['cn'].endswith('::seed') and ENGINE_T.search(n.get('cr', '')) is not None
+
+    seeds = [n for n in s.own_nodes() if n['k'] == 'CXXMemberCallExpr' and n['cn'].endswith('::seed') and
+             ENGINE_T.search(n.get('cr', ''))]
+    resets = [n for n in s.own_nodes() if writes_var(s, n, 'yaclib::detail::sRandCount')]
+    stores = [n for n in s.own_nodes() if writes_var(s, n, 'yaclib::detail::sSeed')]
+    unconditional = bool(seeds) and s.cfg.reaches_exit_without((s.cfg.entry, -1), is_seed_call) is None
+    if not stores:
+        ctx.report(d2, key, s.where, 'SetSeed does not remember the seed')
+    elif not unconditional:
+        ctx.report(d2, key, s.where, 'SetSeed does not re-seed the engine on every path: a run that sets the same seed '
+                   'again (a second run or an in-process replay) continues the previous run\'s sequence while the draw '
+                   'counter restarts, so the same seed no longer means the same decisions')
     elif not resets:
         ctx.report(d2, key, s.where, 'SetSeed re-seeds the engine but keeps the old draw count: a (random-count, '
                    'injector-state) pair recorded after re-seeding in the same process does not identify the engine '
